@@ -22,6 +22,16 @@
 //! re-checked at the end; register_op calls of a trivial user operator under textually
 //! colliding names (proj, p, step, utm, ...) are interleaved (section `context-sequences`).
 //!
+//! Value spellings and special text (section `value-spellings`): every real-valued parameter
+//! (step-local, pipeline-global, a, rf, k, k_0, ellps=a,rf) in 11 spellings of the same number
+//! (1e3, 1E3, 1e+3, 1.5E+05, 1e-3, +5, .5, 5., ...), and keys / text values holding what the
+//! translator treats specially as tokens ('+', ':', step, proj, inv, init, pipeline, omit_*)
+//! where that is ordinary text (egm+96.gsb, stepsize, projx). A user defined probe operator
+//! whose behaviour is a hash of all its keys and of the meaning of all its values makes every
+//! parameter observable; the counterpart is instantiated by Minimal::op (no translator in front)
+//! and once more in canonical decimal spelling (f64::from_str of the spelling, Display).
+//! Sexagesimal (12d30') and other non-decimal value forms are not claimed and not generated.
+//!
 //! Known defect classes are excluded by construction in the main section while they are
 //! listed as `known` (read from known_findings.json / known_findings.d/C17.json) and
 //! counted; a smaller unfiltered section keeps generating them and attributes a failure to
@@ -2036,6 +2046,793 @@ fn seq_strategy() -> impl Strategy<Value = SeqCase> {
         .prop_map(|(fams, items, probes, regs)| SeqCase { fams, items, probes, regs })
 }
 
+// ---- value spellings; special characters and keywords inside keys and values -------------------
+//
+// PROJ definitions carry numbers in every spelling C's strtod accepts (printf %g/%e output:
+// 1e+06, 6.378137e+06, 1.5E+05; hand-written: 1e3, .5, 5., +5) and free text (grid and file
+// names such as egm+96.gsb, keys such as stepsize, values such as projx). The translator treats
+// '+', 'step', 'proj=', 'inv', 'init=', 'pipeline', 'omit_*', 'a=', 'rf=', 'k=' specially - as
+// TOKENS. Inside a key or a value they are ordinary text and must reach the operator untouched.
+//
+// Two kinds of step make that observable:
+// * the shared operators with their real-valued parameters respelled (same number, other
+//   spelling), step-local, pipeline-global, and in the a/rf/k rewrites;
+// * a user defined operator (`vprobe`, registered under several names in both contexts)
+//   whose behaviour is a function of EVERY key and of the MEANING of every value it is given
+//   (a value element that f64::from_str accepts counts as that number, anything else as its
+//   text): an affine map whose coefficients are a hash of the parameter set. It is not
+//   commutative, so step order stays observable too.
+//
+// Oracle: Plain::op(PROJ text) against Minimal::op(hand-written counterpart) - Minimal does not
+// filter through parse_proj, so nothing the translator does can cancel. Then the counterpart is
+// written once more with every number in its canonical decimal spelling (Display of
+// f64::from_str of the spelling): if Geodesy's own parameter parser reads the spelling as that
+// number (it does, for all classes generated here - counted as numeric-meaning-confirmed) the
+// PROJ text equals that text as well; if it did not, only the same-text comparison is asserted.
+
+const REAL_KEYS: [&str; 18] = ["x_0", "y_0", "lon_0", "lat_0", "lat_1", "lat_2", "lat_ts", "x", "y", "z", "rx", "rz", "s", "dx", "dy", "dz", "da", "df"];
+const KEYWORDS: [&str; 7] = ["omit_fwd", "omit_inv", "pipeline", "step", "proj", "init", "inv"];
+const PROBE_NAMES: [&str; 6] = ["vprobe", "stepper", "reproj", "xinv", "initial", "pipeliner"];
+const PROBE_KEYS: [&str; 26] = [
+    "tag", "size", "grids", "file", "stepsize", "step_x", "xstep", "projx", "proj_id", "reproj", "invert", "inv_x", "xinv", "initial", "init_x", "xinit", "pipeline_id",
+    "xpipeline", "omit_fwd_x", "xomit_inv", "stepwise", "inverse", "projected", "a_x", "rfx", "kx",
+];
+const PROBE_NUMS: [&str; 12] = ["1000", "500000", "0.9996", "-87", "117.25", "0.0521", "6378137", "0", "1.41927e-05", "-0.4", "10000000", "2.5"];
+const PROBE_TEXTS: [&str; 28] = [
+    "ed50",
+    "step",
+    "stepwise",
+    "quickstep",
+    "nostep.gsb",
+    "a+b",
+    "foo+bar.gsb",
+    "dir/egm+96.gsb",
+    "@opt+1.gsb",
+    "c++",
+    "utm+zone",
+    "proj",
+    "projx",
+    "reproj",
+    "pipeline",
+    "pipeline2",
+    "inv",
+    "invx",
+    "xinv",
+    "init",
+    "epsg:4326",
+    "ITRF2014:ITRF2008",
+    "omit_fwd",
+    "omit_inv",
+    "x,y+z",
+    "1e+3,2.5E+05",
+    "6.378137e+06,298.257",
+    "step+proj+inv",
+];
+
+/// a decimal literal as sign, significant digits and the position of the decimal point:
+/// value = 0.DIGITS x 10^point
+struct Dec {
+    neg: bool,
+    digits: String,
+    point: i32,
+}
+
+fn parse_dec(s: &str) -> Option<Dec> {
+    let (neg, body) = match s.strip_prefix('-') {
+        Some(r) => (true, r),
+        None => (false, s.strip_prefix('+').unwrap_or(s)),
+    };
+    let (mant, exp) = match body.split_once(['e', 'E']) {
+        Some((m, e)) => (m, e.parse::<i32>().ok()?),
+        None => (body, 0),
+    };
+    let (int, frac) = mant.split_once('.').unwrap_or((mant, ""));
+    if int.len() + frac.len() == 0 || !int.bytes().chain(frac.bytes()).all(|b| b.is_ascii_digit()) {
+        return None;
+    }
+    let mut digits = format!("{int}{frac}");
+    let mut point = int.len() as i32 + exp;
+    while digits.len() > 1 && digits.starts_with('0') {
+        digits.remove(0);
+        point -= 1;
+    }
+    while digits.len() > 1 && digits.ends_with('0') {
+        digits.pop();
+    }
+    if digits == "0" {
+        point = 1;
+    }
+    Some(Dec { neg, digits, point })
+}
+
+/// the digits with the decimal point after `pos` of them; `lead`: write the 0 of "0.5";
+/// `trail`: what follows an integer mantissa ("", "." or ".0")
+fn place_point(digits: &str, pos: i32, lead: bool, trail: &str) -> String {
+    let n = digits.len() as i32;
+    if pos <= 0 {
+        format!("{}.{}{}", if lead { "0" } else { "" }, "0".repeat((-pos) as usize), digits)
+    } else if pos >= n {
+        format!("{}{}{}", digits, "0".repeat((pos - n) as usize), trail)
+    } else {
+        format!("{}.{}", &digits[..pos as usize], &digits[pos as usize..])
+    }
+}
+
+const SPELLINGS: [&str; 11] = ["plain", "exp-bare", "exp-upper", "exp-plus", "exp-upper-plus-padded", "exp-minus", "lead-plus", "lead-plus-exp-plus", "lead-dot", "trail-dot", "decimal-zeros"];
+
+/// The same number in another spelling. `class` indexes SPELLINGS, `var` picks among the
+/// variants of a class. Falls back to the base text where a class does not apply.
+fn spell(base: &str, class: usize, var: u16) -> String {
+    let Some(d) = parse_dec(base) else { return base.to_string() };
+    let sign = if d.neg { "-" } else { "" };
+    let e1 = d.point - 1; // exponent of the form D.DDD x 10^e1
+    let up = if e1 >= 1 { e1 } else { 1 + (var % 3) as i32 }; // a non-negative exponent
+    let down = if e1 <= -1 { e1 } else { -(1 + (var % 3) as i32) }; // a negative exponent
+    let sci = |e: i32, echar: &str, esign: &str, pad: bool, trail: &str| {
+        let digits = if pad { format!("{:02}", e.abs()) } else { format!("{}", e.abs()) };
+        format!("{sign}{}{echar}{}{digits}", place_point(&d.digits, d.point - e, true, trail), if e < 0 { "-" } else { esign })
+    };
+    let out = match class {
+        1 => sci(up, "e", "", false, ""),
+        2 => sci(up, "E", "", false, ""),
+        3 => sci(up, "e", "+", var & 4 != 0, ""),
+        4 => sci(up, "E", "+", true, if var & 4 != 0 { ".0" } else { "" }),
+        5 => sci(down, if var & 8 != 0 { "E" } else { "e" }, "", var & 4 != 0, ""),
+        6 if !d.neg => format!("+{}", base.trim_start_matches('+')),
+        7 if !d.neg => format!("+{}", sci(up, "e", "+", var & 4 != 0, "")),
+        7 => sci(up, "e", "+", var & 4 != 0, ""),
+        8 => {
+            let e = d.point;
+            let m = format!("{sign}{}", place_point(&d.digits, 0, false, ""));
+            match e {
+                0 => m,
+                e if e > 0 => format!("{m}e{}{e}", if var & 4 != 0 { "+" } else { "" }),
+                e => format!("{m}e{e}"),
+            }
+        }
+        9 => {
+            let n = d.digits.len() as i32;
+            if d.point >= n && var & 4 != 0 {
+                format!("{sign}{}", place_point(&d.digits, d.point, true, ".")) // 500000.
+            } else if n == 1 && e1 != 0 && var & 8 != 0 {
+                format!("{sign}{}.e{e1}", d.digits) // 5.e5
+            } else {
+                let e = d.point - n;
+                let m = format!("{sign}{}.", d.digits);
+                if e == 0 {
+                    m
+                } else {
+                    format!("{m}e{e}") // 9996.e-4
+                }
+            }
+        }
+        10 if !base.contains(['e', 'E']) => {
+            let b = base.to_string();
+            if b.contains('.') {
+                format!("{b}0")
+            } else {
+                format!("{b}.{}", if var & 4 != 0 { "00" } else { "0" })
+            }
+        }
+        _ => base.to_string(),
+    };
+    // a harness invariant, from IEEE/correct rounding: equal decimal reals parse to the same f64
+    let (a, b) = (out.parse::<f64>(), base.parse::<f64>());
+    assert!(matches!((&a, &b), (Ok(x), Ok(y)) if x.to_bits() == y.to_bits()), "harness: spelling {out:?} of {base:?} is not the same number");
+    out
+}
+
+/// the number a value element spells, as f64::from_str reads it (decimal literals only)
+fn num(e: &str) -> Option<f64> {
+    if e.is_empty() || !e.bytes().all(|b| b.is_ascii_digit() || b"+-.eE".contains(&b)) {
+        return None;
+    }
+    e.parse::<f64>().ok().filter(|x| x.is_finite())
+}
+
+/// the canonical decimal spelling of every element of a value that f64::from_str reads as a
+/// finite number (the independent statement of what a spelling means); other text is kept
+fn canonical_value(v: &str) -> String {
+    v.split(',').map(|e| num(e).map(|x| format!("{x}")).unwrap_or_else(|| e.to_string())).collect::<Vec<_>>().join(",")
+}
+
+fn is_number(e: &str) -> bool {
+    num(e).is_some()
+}
+
+/// what is special about a value: the spelling classes of its numeric elements and the
+/// special characters / keywords inside its textual elements
+fn value_classes(v: &str) -> Vec<&'static str> {
+    let mut c = vec![];
+    for e in v.split(',') {
+        if is_number(e) {
+            let t = e.trim_start_matches(['+', '-']);
+            if e.contains("e+") || e.contains("E+") {
+                c.push("exp-plus");
+            } else if e.contains("e-") || e.contains("E-") {
+                c.push("exp-minus");
+            } else if e.contains(['e', 'E']) {
+                c.push("exp-bare");
+            }
+            if e.contains('E') {
+                c.push("exp-upper");
+            }
+            if e.starts_with('+') {
+                c.push("lead-plus");
+            }
+            if e.starts_with('-') {
+                c.push("negative");
+            }
+            if t.starts_with('.') {
+                c.push("lead-dot");
+            }
+            if t.ends_with('.') || t.contains(".e") || t.contains(".E") {
+                c.push("trail-dot");
+            }
+            if !e.contains(['e', 'E']) && e.contains('.') && e.ends_with('0') {
+                c.push("decimal-zeros");
+            }
+        } else {
+            if e.contains('+') {
+                c.push("text-plus");
+            }
+            if e.contains(':') {
+                c.push("text-colon");
+            }
+            if KEYWORDS.iter().any(|k| e.contains(k)) {
+                c.push("text-keyword");
+            }
+        }
+    }
+    if v.contains(',') {
+        c.push("list");
+    }
+    c.sort();
+    c.dedup();
+    c
+}
+
+fn key_classes(k: &str) -> Vec<&'static str> {
+    if KEYWORDS.iter().any(|w| k.contains(w)) {
+        vec!["key-keyword"]
+    } else {
+        vec![]
+    }
+}
+
+/// the same value with what makes it a member of `class` removed (None = every class)
+fn neutral_value(v: &str, class: Option<&str>) -> String {
+    let hit = |c: &str| class.map(|x| x == c).unwrap_or(true);
+    let cs = value_classes(v);
+    let mut out = v.to_string();
+    if cs.iter().any(|c| !c.starts_with("text-") && *c != "list" && *c != "negative" && hit(c)) {
+        out = canonical_value(&out);
+    }
+    if cs.contains(&"text-plus") && hit("text-plus") {
+        out = out.split(',').map(|e| if is_number(e) { e.to_string() } else { e.replace('+', "x") }).collect::<Vec<_>>().join(",");
+    }
+    if cs.contains(&"text-colon") && hit("text-colon") {
+        out = out.replace(':', "_");
+    }
+    if cs.contains(&"text-keyword") && hit("text-keyword") {
+        for k in KEYWORDS {
+            out = out.replace(k, "zz");
+        }
+    }
+    out
+}
+
+fn neutral_key(k: &str, class: Option<&str>) -> String {
+    let mut out = k.to_string();
+    if class.map(|c| c == "key-keyword").unwrap_or(true) {
+        for w in KEYWORDS {
+            out = out.replace(w, "zz");
+        }
+    }
+    out
+}
+
+fn is_probe(name: &str) -> bool {
+    PROBE_NAMES.contains(&name)
+}
+
+/// every value site of a pipeline: (site label, key, value)
+fn value_sites(pipe: &Pipe) -> Vec<(&'static str, String, String)> {
+    let mut out = vec![];
+    let ell = |out: &mut Vec<(&'static str, String, String)>, e: &Ell, arf: &'static str, named: &'static str| match e {
+        Ell::No => {}
+        Ell::Named(n) => out.push((named, "ellps".to_string(), n.clone())),
+        Ell::ARf(a, rf) => {
+            out.push((arf, "a".to_string(), a.clone()));
+            out.push((arf, "rf".to_string(), rf.clone()));
+        }
+    };
+    for g in &pipe.globals {
+        out.push(("global", g.0.clone(), g.1.clone().unwrap_or_default()));
+    }
+    ell(&mut out, &pipe.g_ell, "a-rf-global", "ellps-global");
+    if let KSpec::K(v) | KSpec::K0(v) = &pipe.g_k {
+        out.push((if matches!(pipe.g_k, KSpec::K(_)) { "k-global" } else { "k_0-global" }, "k".into(), v.clone()));
+    }
+    for s in &pipe.steps {
+        let site = if is_probe(&s.name) { "probe-local" } else { "local" };
+        for p in &s.params {
+            out.push((site, p.0.clone(), p.1.clone().unwrap_or_default()));
+        }
+        ell(&mut out, &s.ell, "a-rf-local", "ellps-local");
+        if let KSpec::K(v) | KSpec::K0(v) = &s.k {
+            out.push((if matches!(s.k, KSpec::K(_)) { "k-local" } else { "k_0-local" }, "k".into(), v.clone()));
+        }
+    }
+    out
+}
+
+/// the pipeline with every value / key mapped
+fn map_pipe(pipe: &Pipe, fv: &dyn Fn(&str) -> String, fk: &dyn Fn(&str) -> String) -> Pipe {
+    let ell = |e: &Ell| match e {
+        Ell::No => Ell::No,
+        Ell::Named(n) => Ell::Named(fv(n)),
+        Ell::ARf(a, rf) => Ell::ARf(fv(a), fv(rf)),
+    };
+    let k = |k: &KSpec| match k {
+        KSpec::No => KSpec::No,
+        KSpec::K(v) => KSpec::K(fv(v)),
+        KSpec::K0(v) => KSpec::K0(fv(v)),
+    };
+    let par = |p: &Param| (fk(&p.0), p.1.as_ref().map(|v| fv(v)));
+    let mut q = pipe.clone();
+    q.globals = pipe.globals.iter().map(par).collect();
+    q.g_ell = ell(&pipe.g_ell);
+    q.g_k = k(&pipe.g_k);
+    for (s, o) in q.steps.iter_mut().zip(&pipe.steps) {
+        s.params = o.params.iter().map(par).collect();
+        s.ell = ell(&o.ell);
+        s.k = k(&o.k);
+    }
+    q
+}
+
+// The probe operator: x' = x * m + o per coordinate, with (m, o) a hash of the parameter set
+fn vprobe_coefficients(op: &Op) -> [(f64, f64); 4] {
+    let mut h: u64 = 0xcbf29ce484222325;
+    let mut fold = |bytes: &[u8]| {
+        for b in bytes {
+            h = (h ^ *b as u64).wrapping_mul(0x100000001b3);
+        }
+    };
+    for (k, v) in &op.params.given {
+        if ["_name", "inv", "omit_fwd", "omit_inv"].contains(&k.as_str()) {
+            continue;
+        }
+        fold(k.as_bytes());
+        fold(&[0xFF]);
+        for e in v.split(',') {
+            match e.trim().parse::<f64>() {
+                Ok(x) => {
+                    fold(b"n");
+                    fold(&x.to_bits().to_le_bytes());
+                }
+                Err(_) => {
+                    fold(b"t");
+                    fold(e.as_bytes());
+                }
+            }
+            fold(&[0xFE]);
+        }
+    }
+    let mut st = Stream(h);
+    let mut out = [(1.0, 0.0); 4];
+    for o in out.iter_mut() {
+        let z = st.next();
+        // small enough to keep angles angles and metres metres, exact in binary
+        *o = (1.0 + (z & 7) as f64 / 4096.0, (((z >> 8) & 0xFFFF) as f64 - 32768.0) / 4194304.0);
+    }
+    out
+}
+fn vprobe_fwd(op: &Op, _ctx: &dyn Context, operands: &mut dyn CoordinateSet) -> usize {
+    let c = vprobe_coefficients(op);
+    let n = operands.len();
+    for i in 0..n {
+        let mut o = operands.get_coord(i);
+        for k in 0..4 {
+            o[k] = o[k] * c[k].0 + c[k].1;
+        }
+        operands.set_coord(i, &o);
+    }
+    n
+}
+fn vprobe_inv(op: &Op, _ctx: &dyn Context, operands: &mut dyn CoordinateSet) -> usize {
+    let c = vprobe_coefficients(op);
+    let n = operands.len();
+    for i in 0..n {
+        let mut o = operands.get_coord(i);
+        for k in 0..4 {
+            o[k] = (o[k] - c[k].1) / c[k].0;
+        }
+        operands.set_coord(i, &o);
+    }
+    n
+}
+fn vprobe_new(parameters: &RawParameters, ctx: &dyn Context) -> Result<Op, geodesy::Error> {
+    Op::plain(parameters, InnerOp(vprobe_fwd), Some(InnerOp(vprobe_inv)), &ADD42_GAMUT, ctx)
+}
+fn plain_probe() -> Plain {
+    let mut c = Plain::new();
+    for n in PROBE_NAMES {
+        c.register_op(n, OpConstructor(vprobe_new));
+    }
+    c
+}
+fn minimal_probe() -> Minimal {
+    let mut c = Minimal::new();
+    for n in PROBE_NAMES {
+        c.register_op(n, OpConstructor(vprobe_new));
+    }
+    c
+}
+
+#[derive(Clone, Debug, Serialize, Deserialize)]
+struct SpellCase {
+    pipe: Pipe,
+    layout: Layout,
+    probes: Vec<P4>,
+}
+
+/// as `evaluate`, with the probe operator known to both sides and the counterpart instantiated
+/// WITHOUT the translator in front (Minimal::op)
+fn evaluate_spell(pipe: &Pipe, lay: &Layout, probes: &[Coor4D]) -> Result<(Inst, Option<(String, String)>), Failure> {
+    let text = render_proj(pipe, lay);
+    let reft = translate(pipe, Bugs::default());
+    let mut ctx = plain_probe();
+    let lib = observe(&mut ctx, &text, probes)?;
+    let out = match guard(|| parse_proj(&text)) {
+        Err(p) => return Ok((lib, Some((format!("panic-parse_proj@{}", p.sig()), format!("parse_proj panics on a well-formed PROJ definition: {} at {}:{}", p.msg, p.file, p.line))))),
+        Ok(Err(e)) => return Ok((lib, Some(("valid-proj-refused".into(), format!("a well-formed PROJ definition is refused by parse_proj: {e:?}"))))),
+        Ok(Ok(o)) => o,
+    };
+    match guard(|| parse_proj(&out)) {
+        Err(p) => return Ok((lib, Some((format!("panic-parse_proj@{}", p.sig()), format!("parse_proj panics on its own output {}: {} at {}:{}", esc(&out), p.msg, p.file, p.line))))),
+        Ok(Ok(again)) if again == out => {}
+        Ok(other) => return Ok((lib, Some(("not-idempotent".into(), format!("parse_proj is not idempotent: once {} twice {:?}", esc(&out), other))))),
+    }
+    let mut min = minimal_probe();
+    let rf = observe(&mut min, &reft, probes)?;
+    let d = differs(&lib, &rf, probes).map(|d| ("translation-changes-meaning".to_string(), d));
+    Ok((lib, d))
+}
+
+fn check_spell(case: &SpellCase, rec: &mut Rec) -> CaseResult {
+    let pipe = &case.pipe;
+    let lay = &case.layout;
+    let probes = c4s(&case.probes);
+    let text = render_proj(pipe, lay);
+    let reft = translate(pipe, Bugs::default());
+    if std::env::var("C17_DUMP").is_ok() {
+        eprintln!("PROJ text: {}\nparse_proj: {:?}\nreference: {}", esc(&text), guard(|| parse_proj(&text)).map_err(|p| p.msg), esc(&reft));
+    }
+    let sites = value_sites(pipe);
+    // which classes are present, in a fixed order
+    let mut present: Vec<&'static str> = sites.iter().flat_map(|(_, k, v)| value_classes(v).into_iter().chain(key_classes(k))).filter(|c| *c != "list" && *c != "negative").collect();
+    present.sort();
+    present.dedup();
+
+    let report = |pipe: &Pipe, generic: String, what: String| -> CaseResult {
+        // attribute: the first class whose removal from the definition (same number in canonical
+        // decimal spelling / the text without the special character or keyword) restores agreement
+        let mut culprit = None;
+        for c in &present {
+            let q = map_pipe(pipe, &|v| neutral_value(v, Some(c)), &|k| neutral_key(k, Some(c)));
+            if evaluate_spell(&q, lay, &probes)?.1.is_none() {
+                culprit = Some(*c);
+                break;
+            }
+        }
+        let key = match culprit {
+            Some(c) => format!("value-or-key-not-kept:{c}"),
+            None => generic,
+        };
+        let text = render_proj(pipe, lay);
+        Err(Failure {
+            key,
+            msg: format!(
+                "PROJ text     : {}\nparse_proj    : {:?}\nreference text: {} (instantiated by Minimal::op, i.e. not filtered through parse_proj; the operators {:?} are one user defined operator whose behaviour is a hash of all its keys and of the meaning of all its values)\n{what}\nattributed to : {:?} (the class of value spelling / special text whose replacement by a neutral spelling of the same meaning restores exact agreement; None = unexplained)",
+                esc(&text),
+                guard(|| parse_proj(&text)).map_err(|p| p.msg),
+                esc(&translate(pipe, Bugs::default())),
+                PROBE_NAMES,
+                culprit
+            ),
+        })
+    };
+
+    // 1. the PROJ text against its counterpart, value texts identical
+    let (lib, d) = evaluate_spell(pipe, lay, &probes)?;
+    if let Some((generic, what)) = d {
+        return report(pipe, generic, what);
+    }
+    if let Inst::Works(b) = &lib {
+        vensure!(b.steps == pipe.steps.len(), "step-count", "PROJ text {} has {} steps, the library makes {} of them", esc(&text), pipe.steps.len(), b.steps);
+    }
+    let mut min = minimal_probe();
+    let rf = observe(&mut min, &reft, &probes)?;
+
+    // 2. the numeric meaning of the spellings: the counterpart in canonical decimal spelling
+    let canon = map_pipe(pipe, &|v| canonical_value(v), &|k| k.to_string());
+    let canont = translate(&canon, Bugs::default());
+    let cn = observe(&mut min, &canont, &probes)?;
+    let confirmed = differs(&rf, &cn, &probes).is_none();
+    if confirmed {
+        // Geodesy reads every spelling as the number f64::from_str reads: then so must the PROJ route
+        if let Some(d) = differs(&lib, &cn, &probes) {
+            return report(pipe, "value-spelling-changes-number".into(), format!("against the counterpart in canonical decimal spelling {}: {d}", esc(&canont)));
+        }
+        rec.class("numeric-meaning-confirmed");
+    } else {
+        // Geodesy's own parser reads some spelling differently (not this property's business):
+        // only the same-text comparison above is asserted
+        rec.class("numeric-meaning-not-confirmed-by-geodesy");
+    }
+
+    // 3. pipeline-level inv
+    if pipe.header {
+        let mut twin = pipe.clone();
+        twin.inv = !pipe.inv;
+        let (tlib, d) = evaluate_spell(&twin, lay, &probes)?;
+        if let Some((generic, what)) = d {
+            return report(&twin, generic, what);
+        }
+        if let Some(d) = not_mirrored(&tlib, &lib, &probes) {
+            vfail!("pipeline-inv-not-exact-inverse", "with pipeline inv toggled: {}\nvs {}\n{d}", esc(&render_proj(&twin, lay)), esc(&text));
+        }
+        rec.class("twin-checked");
+    }
+
+    // bookkeeping
+    for (site, k, v) in &sites {
+        let vc = value_classes(v);
+        if !v.is_empty() && is_number(v) && vc.iter().all(|c| *c == "negative") {
+            rec.class(&format!("plain@{site}"));
+        }
+        for c in vc.iter().chain(key_classes(k).iter()) {
+            rec.class(c);
+            rec.class(&format!("{c}@{site}"));
+        }
+    }
+    rec.class(&format!("steps={}", pipe.steps.len()));
+    rec.class(match lay.plus {
+        0 => "layout:no-plus",
+        1 => "layout:plus-everywhere",
+        _ => "layout:plus-mixed",
+    });
+    if lay.spaced_eq {
+        rec.class("layout:blanks-around-equals");
+    }
+    if lay.comments && text.contains('#') {
+        rec.class("layout:comments");
+    }
+    if pipe.steps.iter().any(|s| is_probe(&s.name)) {
+        rec.class("with-probe-operator");
+    }
+    for s in &pipe.steps {
+        rec.count(&format!("op:{}", s.name), 1);
+    }
+    match &lib {
+        Inst::Refused(_) => rec.class("both-refused"),
+        Inst::Works(b) => {
+            // non-trivial: the special values matter - without the parameters that carry them the
+            // operation is observably another one
+            let special = |k: &str, v: &str| !key_classes(k).is_empty() || value_classes(v).iter().any(|c| *c != "negative" && *c != "list");
+            let mut bare = pipe.clone();
+            bare.globals.retain(|g| !special(&g.0, g.1.as_deref().unwrap_or("")));
+            let strip_ell = |e: &mut Ell| {
+                let sp = match &*e {
+                    Ell::No => false,
+                    Ell::Named(n) => special("ellps", n),
+                    Ell::ARf(a, rf) => special("a", a) || special("rf", rf),
+                };
+                if sp {
+                    *e = Ell::No;
+                }
+            };
+            let strip_k = |k: &mut KSpec| {
+                if let KSpec::K(v) | KSpec::K0(v) = &*k {
+                    if special("k", v) {
+                        *k = KSpec::No;
+                    }
+                }
+            };
+            strip_ell(&mut bare.g_ell);
+            strip_k(&mut bare.g_k);
+            for s in bare.steps.iter_mut() {
+                s.params.retain(|p| !special(&p.0, p.1.as_deref().unwrap_or("")));
+                strip_ell(&mut s.ell);
+                strip_k(&mut s.k);
+            }
+            let baret = translate(&bare, Bugs::default());
+            let finite = b.fwd.iter().chain(&b.inv).filter(|o| (0..4).all(|k| o[k].is_finite())).count();
+            rec.count("finite_outputs", finite as u64);
+            rec.count("outputs", (b.fwd.len() + b.inv.len()) as u64);
+            if baret != reft {
+                let bo = observe(&mut min, &baret, &probes)?;
+                if differs(&bo, &rf, &probes).is_some() {
+                    rec.class("special-values-observable");
+                    rec.nontrivial(&(reft.clone(), text.len()));
+                } else {
+                    rec.class("special-values-without-effect");
+                }
+            } else {
+                rec.class("no-special-value");
+            }
+        }
+    }
+    Ok(())
+}
+
+#[derive(Clone, Debug)]
+struct RawSpell {
+    rp: RawPipe,
+    draws: Vec<(u16, u16, u16)>,
+    probes: Vec<(u16, u16, bool, Vec<(u16, u16, u16, u16, u16)>)>,
+    gextra: Vec<(u16, u16, u16, u16, u16)>,
+}
+
+/// (key, value) of one probe parameter: 45% number in some spelling, 40% text, 15% flag
+fn probe_param(d: &(u16, u16, u16, u16, u16)) -> Param {
+    let key = pick_s(d.0, &PROBE_KEYS).to_string();
+    if opt(d.1, 45) {
+        let class = if opt(d.3, 15) { 0 } else { 1 + pick(d.3, SPELLINGS.len() - 1) };
+        (key, Some(spell(pick_s(d.2, &PROBE_NUMS), class, d.4)))
+    } else if opt(d.1, 85) {
+        (key, Some(pick_s(d.2, &PROBE_TEXTS).to_string()))
+    } else {
+        (key, None)
+    }
+}
+
+struct Draws<'a> {
+    v: &'a [(u16, u16, u16)],
+    i: usize,
+}
+impl Draws<'_> {
+    fn next(&mut self) -> (u16, u16, u16) {
+        let d = self.v[self.i % self.v.len()];
+        self.i += 1;
+        d
+    }
+}
+/// some spelling of the same number (30% as it is)
+fn respell(v: &mut String, dr: &mut Draws) {
+    let d = dr.next();
+    let class = if opt(d.0, 30) { 0 } else { 1 + pick(d.1, SPELLINGS.len() - 1) };
+    *v = spell(v, class, d.2);
+}
+fn respell_ell(e: &mut Ell, dr: &mut Draws) {
+    match e {
+        Ell::No => {}
+        Ell::ARf(a, rf) => {
+            respell(a, dr);
+            respell(rf, dr);
+        }
+        Ell::Named(n) => {
+            // sometimes the ellipsoid as the text a,rf (Geodesy syntax, legal in a PROJ text as well)
+            let d = dr.next();
+            if opt(d.0, 35) {
+                let (a, rf) = ARF[pick(d.1, ARF.len())];
+                let (mut a, mut rf) = (a.to_string(), rf.to_string());
+                respell(&mut a, dr);
+                respell(&mut rf, dr);
+                *n = format!("{a},{rf}");
+            }
+        }
+    }
+}
+
+fn build_spell(r: &RawSpell, excl: &Excl) -> Pipe {
+    let (mut pipe, _, _) = build_pipe(&r.rp, excl);
+    let mut dr = Draws { v: &r.draws, i: 0 };
+    // every real-valued parameter of the shared operators in some spelling of the same number
+    for g in pipe.globals.iter_mut() {
+        if let (true, Some(v)) = (REAL_KEYS.contains(&g.0.as_str()), g.1.as_mut()) {
+            respell(v, &mut dr);
+        }
+    }
+    respell_ell(&mut pipe.g_ell, &mut dr);
+    if let KSpec::K(v) | KSpec::K0(v) = &mut pipe.g_k {
+        respell(v, &mut dr);
+    }
+    for s in pipe.steps.iter_mut() {
+        for p in s.params.iter_mut() {
+            if let (true, Some(v)) = (REAL_KEYS.contains(&p.0.as_str()), p.1.as_mut()) {
+                respell(v, &mut dr);
+            }
+        }
+        respell_ell(&mut s.ell, &mut dr);
+        if let KSpec::K(v) | KSpec::K0(v) = &mut s.k {
+            respell(v, &mut dr);
+        }
+    }
+    // keys and values with special text: on the shared operators (ignored there, but the text
+    // must not derail the translation), as pipeline globals, and on probe steps (observable)
+    for (si, d) in r.gextra.iter().enumerate() {
+        let p = probe_param(d);
+        if si % 2 == 0 && pipe.header {
+            if !pipe.globals.iter().any(|g| g.0 == p.0) {
+                pipe.globals.push(p);
+            }
+        } else {
+            let at = pick(d.4, pipe.steps.len());
+            let s = &mut pipe.steps[at];
+            if !s.params.iter().any(|q| q.0 == p.0) && s.name != "push" && s.name != "pop" {
+                s.params.push(p);
+            }
+        }
+    }
+    for (pos, name, inv, ps) in &r.probes {
+        let mut params: Vec<Param> = vec![];
+        for d in ps {
+            let p = probe_param(d);
+            if !params.iter().any(|q| q.0 == p.0) {
+                params.push(p);
+            }
+        }
+        let step = Step { name: pick_s(*name, &PROBE_NAMES).to_string(), params, ell: Ell::No, k: KSpec::No, inv: *inv, omit_fwd: false, omit_inv: false };
+        let at = pick(*pos, pipe.steps.len() + 1);
+        pipe.steps.insert(at, step);
+    }
+    pipe
+}
+
+fn spell_strategy(excl: Excl) -> impl Strategy<Value = SpellCase> {
+    let five = || (any::<u16>(), any::<u16>(), any::<u16>(), any::<u16>(), any::<u16>());
+    let raw = (
+        raw_pipe(4),
+        prop::collection::vec((any::<u16>(), any::<u16>(), any::<u16>()), 16),
+        prop::collection::vec((any::<u16>(), any::<u16>(), prop::bool::weighted(0.3), prop::collection::vec(five(), 1..=4)), 0..=2),
+        prop::collection::vec(five(), 0..=3),
+    )
+        .prop_map(|(rp, draws, probes, gextra)| RawSpell { rp, draws, probes, gextra });
+    (raw, layout_strategy(excl), probes_strategy()).prop_map(move |(r, layout, probes)| {
+        // no omit_* here (their known classes have their own sections); brackets are kept
+        let mut pipe = build_spell(&r, &excl);
+        for s in pipe.steps.iter_mut() {
+            s.omit_fwd = false;
+            s.omit_inv = false;
+        }
+        SpellCase { pipe, layout, probes }
+    })
+}
+
+/// the spelling generator against hand-written expectations, and the probe operator's notion
+/// of a value (number = meaning, text = text)
+fn selftest_spellings() {
+    for (base, class, var, want) in [
+        ("1000", 1, 0, "1e3"),
+        ("1000", 2, 0, "1E3"),
+        ("1000", 3, 0, "1e+3"),
+        ("150000", 4, 4, "1.5E+05"),
+        ("6378137", 3, 4, "6.378137e+06"),
+        ("0.001", 5, 0, "1e-3"),
+        ("500000", 5, 0, "5000000e-1"),
+        ("5", 6, 0, "+5"),
+        ("500000", 7, 0, "+5e+5"),
+        ("0.5", 8, 0, ".5"),
+        ("-0.4", 8, 0, "-.4"),
+        ("5", 9, 4, "5."),
+        ("500000", 9, 8, "5.e5"),
+        ("0.9996", 9, 0, "9996.e-4"),
+        ("297", 10, 0, "297.0"),
+        ("0.9996", 3, 0, "0.09996e+1"),
+        ("-87", 3, 0, "-8.7e+1"),
+        ("1.41927e-05", 5, 0, "1.41927e-5"),
+        ("0", 3, 0, "0.0e+1"),
+    ] {
+        let got = spell(base, class, var);
+        assert!(got == want, "harness: spell({base:?}, {}, {var}) = {got:?}, expected {want:?}", SPELLINGS[class]);
+    }
+    assert!(canonical_value("6.378137e+06,298.257") == "6378137,298.257" && canonical_value("+5") == "5" && canonical_value("a+b") == "a+b" && canonical_value("inf") == "inf");
+    assert!(value_classes("1.5E+05") == vec!["exp-plus", "exp-upper"] && value_classes("foo+bar.gsb") == vec!["text-plus"] && value_classes("step") == vec!["text-keyword"]);
+}
+
 // ---- main --------------------------------------------------------------------------------------
 
 fn known_keys(root: &std::path::Path) -> BTreeSet<String> {
@@ -2058,6 +2855,7 @@ fn known_keys(root: &std::path::Path) -> BTreeSet<String> {
 fn main() {
     let mut run = Run::init("C17");
     selftest_translator();
+    selftest_spellings();
     let mut known = known_keys(&run.root);
     if std::env::var("C17_NO_EXCLUSIONS").is_ok() {
         known.clear(); // development aid: generate every class, e.g. against a patched checkout
@@ -2076,6 +2874,8 @@ fn main() {
     run.assume("both sides run the library's own operators: operator defects cancel, only the translation is judged; comparison is bitwise (NaN == NaN) on 7 probe tuples of mixed kinds, both directions, plus success counts and step counts");
     run.assume("not generated: PROJ ellipsoid forms other than ellps / a+rf (R, b, f, es), a or rf alone, ellps together with a/rf in the same clause, k together with k_0 in the same clause, empty steps other than a doubled `step` keyword, omit_* on single-step definitions");
     run.assume("a text holding an init clause but not the letters 'proj' passes through parse_proj verbatim (it is 'not PROJ syntax' for the detector); there only the refusal by Plain::op is asserted");
+
+    run.assume("value-spellings: the numeric meaning of a decimal spelling is f64::from_str of it (correctly rounded, so equal decimal reals are the same f64 - asserted in the generator); the comparison with the canonically spelled counterpart is asserted only where Geodesy's own parser, on the hand-written text, agrees with that reading (counted: numeric-meaning-confirmed); '=' '#' '|' '<' '>' '$' and blanks inside values, values starting with a non-numeric '+', sexagesimal and d/m/s forms are not legal or not claimed and not generated; the probe operator reads a value element that f64::from_str accepts as that number and anything else as text, so a translator that respells a number without changing it (dropping a redundant '+') is not flagged");
 
     let max_steps = if run.is_thorough() { 8 } else { 6 };
 
@@ -2131,6 +2931,15 @@ fn main() {
         n,
         seq_strategy,
         check_seq,
+    );
+
+    let n = run.scale(8_000, 120_000);
+    run.section(
+        "value-spellings",
+        "PROJ pipelines of 1..4 shared-operator steps plus 0..2 steps of a user defined probe operator (registered as vprobe, stepper, reproj, xinv, initial, pipeliner; an affine map whose coefficients are a hash of all its keys and of the meaning of all its values), every real-valued parameter - step-local, pipeline-global, a and rf, k and k_0, ellps=a,rf - written in one of 11 spellings of the same number (plain, 1e3, 1E3, 1e+3, 1.5E+05, 1e-3, +5, +5e+5, .5, 5., 5.0; negative values too), and keys / text values that contain what the translator treats specially as tokens ('+' inside file names and lists, ':' , step, proj, inv, init, pipeline, omit_fwd, omit_inv as substrings or whole values, keys like stepsize, projx, init_x, a_x, kx) on probe steps (observable), on shared operators (ignored there) and as globals; all layouts of the pipelines section. Plain::op(PROJ text) must behave bit for bit (both directions, counts, step count) as Minimal::op(counterpart) - not filtered through parse_proj - and, where Geodesy's parameter parser reads each spelling as f64::from_str does (class numeric-meaning-confirmed), as the counterpart in canonical decimal spelling; inverted twin; idempotence. A failure is attributed to the class whose neutral respelling restores agreement. non-trivial = removing the parameters with a non-plain spelling / special text changes the behaviour observably",
+        n,
+        move || spell_strategy(excl),
+        check_spell,
     );
 
     run.finish("generated PROJ pipeline ASTs x layouts checked against an independent translator (bitwise behaviour of Plain::op(PROJ) vs Plain::op(reference), inverted twins, idempotence), plus refusal and pass-through domains; see sections");
